@@ -297,6 +297,10 @@ func (p *parser) newForStmt(initExpr *ast.Node, condExpr *ast.Node, loopExpr *as
 func (p *parser) newForInStmt(inExpr *ast.Node, body *ast.BlockStmt, forTk Item) *ast.Node {
 	var expr *ast.InExpr
 
+	if inExpr == nil { // the `x in y` expression failed to parse; its error is already recorded
+		return nil
+	}
+
 	switch inExpr.NodeType { //nolint:exhaustive
 	case ast.TypeInExpr:
 		expr = inExpr.InExpr()
@@ -374,6 +378,10 @@ func (p *parser) newIfElem(ifTk Item, condition *ast.Node, block *ast.BlockStmt)
 }
 
 func (p *parser) newUnaryExpr(op Item, r *ast.Node) *ast.Node {
+	if r == nil { // the operand failed to parse; its error is already recorded
+		return nil
+	}
+
 	switch op.Typ {
 	case ADD, SUB:
 		// 负数
@@ -428,6 +436,10 @@ func (p *parser) newConditionalExpr(l, r *ast.Node, op Item) *ast.Node {
 }
 
 func (p *parser) newArithmeticExpr(l, r *ast.Node, op Item) *ast.Node {
+	if l == nil || r == nil { // an operand failed to parse; its error is already recorded
+		return nil
+	}
+
 	switch op.Typ {
 	case DIV, MOD: // div 0 or mod 0
 		switch r.NodeType { //nolint:exhaustive
@@ -501,6 +513,10 @@ func (p *parser) newIndexExpr(obj *ast.Node, lBracket Item, index *ast.Node, rBr
 
 func (p *parser) newCallExpr(fn *ast.Node, args []*ast.Node, lParen, rParen Item) *ast.Node {
 	var fname string
+
+	if fn == nil { // the callee failed to parse; its error is already recorded
+		return nil
+	}
 
 	switch fn.NodeType { //nolint:exhaustive
 	case ast.TypeIdentifier:
